@@ -9,6 +9,7 @@ import CirkitModel.Model.Num
 import CirkitModel.Model.Sym
 import CirkitModel.Model.Fold
 import CirkitModel.Model.Mul
+import CirkitModel.Model.Registry
 
 open Lean Cirkit
 
@@ -334,6 +335,38 @@ def handle (M : Mode R) (s : State R) (j : Json) : Except String (State R × Jso
           | some sh => Json.arr (sh.toArray.map fun n => toJson (n : Nat))
           | none => Json.null),
         ("ok", showArr A t.data)])
+  | "registry" => do
+      -- run the compiler-registry / pipeline-context state machine on an operation history
+      let opsJ ← (← j.getObjVal? "ops").getArr?
+      let optCtx : Json → Option Nat := fun o => match o.getObjVal? "ctx" with
+        | .ok (.num n) => some n.mantissa.toNat
+        | _ => none
+      let ops ← opsJ.toList.mapM fun o => do
+        let k ← getStr o "op"
+        match k with
+        | "new" => pure POp'.newCircuit
+        | "sym" => pure (POp'.symOp (← getNatList o "operands"))
+        | "newctx" => pure POp'.newCtx
+        | "compile" => pure (POp'.compile (optCtx o) (← getNat o "sc"))
+        | "ccop" => pure (POp'.ccOp (optCtx o) (← getNatList o "ccs"))
+        | "enter" => pure (POp'.enter (← getNat o "ctx"))
+        | "exit" => pure (POp'.exit (← getNat o "ctx"))
+        | "is_compiled" => pure (POp'.isCompiled (optCtx o) (← getNat o "sc"))
+        | "has_symbolic" => pure (POp'.hasSymbolic (optCtx o) (← getNat o "cc"))
+        | "get_compiled" => pure (POp'.getCompiled (optCtx o) (← getNat o "sc"))
+        | "get_symbolic" => pure (POp'.getSymbolic (optCtx o) (← getNat o "cc"))
+        | _ => throw s!"unknown registry op {k}"
+      let (st, outs) := PState.run {} ops
+      let showO : POut → Json := fun o => match o with
+        | .sc n => Json.mkObj [("sc", toJson n)]
+        | .cc n => Json.mkObj [("cc", toJson n)]
+        | .ctx n => Json.mkObj [("ctx", toJson n)]
+        | .bool b => Json.mkObj [("bool", Json.bool b)]
+        | .unit => Json.str "unit"
+        | .error => Json.str "error"
+      pure (s, Json.mkObj [("outs", Json.arr (outs.toArray.map showO)),
+        ("compile_log", Json.arr (st.compileLog.toArray.map fun p => Json.arr #[toJson p.1, toJson p.2])),
+        ("active", toJson st.active)])
   | "precheck" => do
       -- argument checks of the operators: returns the error class the model predicts (or "ok")
       let c ← s.get (← getStr j "id")
